@@ -453,7 +453,34 @@ def c07(tier, seed, work):
                      "tails, and every body length below the minimum (must be rejected).")
 
 
+def add_walk(res, work, fam_specs, note):
+    """Merge scripted-connection families (TraceWalk) into a vector check's result."""
+    fams = [F.walk_family(work, **fs) for fs in fam_specs]
+    require_accepted(fams)
+    extra = []
+    for f in fams:
+        extra += flatten(f)
+    attach_scripts(extra)
+    res["viols"] += extra
+    cov = res["coverage"]
+    cov["evaluations"] += sum(f["scripts"] for f in fams)
+    cov["distinct_nontrivial"] += sum(f["scripts"] for f in fams)
+    cov["families"] += fam_cov(fams)
+    cov["traces_validated_against_impl"] = sum(f["scripts"] for f in fams)
+    cov["rule"] += " " + note
+    return res
+
+
 def c06(tier, seed, work):
+    W = dict(module="MCGenWireVec")
+    res = c06_vec(tier, seed, work)
+    return add_walk(res, work, [dict(name="c06-sensor", module="MCGenSensor", cfg_tpl="Gen_Cipher.cfg.tpl", family="sweep", tier=tier, seed=seed)],
+                    "In-session request encodings: Get Sensor Reading to every owner LUN (responses come back from that LUN) followed by "
+                    "further requests on the same session; TLC parses each decrypted request (addresses, NetFn/LUN both ways, command, "
+                    "data, checksums).")
+
+
+def c06_vec(tier, seed, work):
     W = dict(module="MCGenWireVec")
     return vec_check("C06", tier, seed, work, [_vf("c06-req", "req", tier, seed), _vf("c06-message", "message", tier, seed, **W),
                                                _vf("c06-setup", "setup", tier, seed, **W)],
